@@ -1,5 +1,6 @@
 /- Model/C01Gen.lean — the C01 model instantiated with the facts the translator extracted. -/
 import PsutilModel.Model.C01
+import PsutilModel.Model.C01Stat
 import PsutilModel.Generated.C01
 namespace Psutil.C01
 
@@ -28,5 +29,27 @@ def cfg : Cfg :=
     sigKill := (Gen.C01.signalMap.lookup "kill").getD 0
     ioNoValue := Gen.C01.ioNoValue
     affinityAll := Gen.C01.affinityResetMask }
+
+/-- the reader of `/proc/<pid>/stat` exactly as the translator extracted it (obligation `scfg_good`, Props/C01.lean) -/
+def scfgRaw : StatCfg :=
+  { search := if Gen.C01.statSearch == "find" then .find else .rfind
+    needle := Gen.C01.statNeedle
+    skip := Gen.C01.statSkip
+    ctimeIdx := Gen.C01.statCtimeIdx
+    statusIdx := Gen.C01.statStatusIdx }
+
+/-- the reader every shape fact of which was recognised (`rfind`/`find` of a byte string, whitespace split, the
+    stat record's 'create_time' divided by CLOCK_TICKS) -/
+def scfgRecognised : Bool :=
+  (Gen.C01.statSearch == "rfind" || Gen.C01.statSearch == "find") && Gen.C01.statSplit == "ws"
+    && Gen.C01.createReads == "float(create_time)/CLOCK_TICKS"
+
+/-- baseline reader: last `)`, two bytes further, field 19 = starttime, field 0 = state -/
+def scfgBaseline : StatCfg := ⟨.rfind, [41], 2, 19, 0⟩
+
+/-- the reader the DRIVER runs: the extracted one; when the translator did not recognise the shape, the baseline
+    reader (so that the specification side still follows the objects and a concrete failing input can be named —
+    the theorems' obligation `scfg_good` is on the raw facts and fails in that case) -/
+def scfg : StatCfg := if scfgRecognised then scfgRaw else scfgBaseline
 
 end Psutil.C01
